@@ -5,6 +5,9 @@ use std::panic::{self, AssertUnwindSafe};
 
 pub use fend_core::verif_hooks::{RawRat, RawUint};
 
+/// which phase of a multi-phase case is running (reported by the watchdog on a timeout)
+pub static PHASE: std::sync::atomic::AtomicUsize = std::sync::atomic::AtomicUsize::new(0);
+
 /// Never fires, counts polls.
 #[derive(Default)]
 pub struct Counting {
@@ -24,6 +27,24 @@ impl fend_core::Interrupt for Counting {
         let n = self.polls.get();
         self.polls.set(n + 1);
         n >= self.fire_at.get()
+    }
+}
+
+/// Fires once a deadline has passed (checked every 64th poll to keep polling cheap).
+pub struct Deadline {
+    pub polls: Cell<u64>,
+    pub until: std::time::Instant,
+}
+impl Deadline {
+    pub fn ms(ms: u64) -> Self {
+        Self { polls: Cell::new(0), until: std::time::Instant::now() + std::time::Duration::from_millis(ms) }
+    }
+}
+impl fend_core::Interrupt for Deadline {
+    fn should_interrupt(&self) -> bool {
+        let n = self.polls.get();
+        self.polls.set(n + 1);
+        n % 64 == 63 && std::time::Instant::now() >= self.until
     }
 }
 
